@@ -428,6 +428,10 @@ pub fn templates_bounded(thorough: bool) -> Vec<Template> {
     }
     let max_days = if thorough { 21 } else { 5 };
     for (id, sp) in family(thorough) {
+        // quick: single rules, a full-day second rule, the three-rule fallback shapes
+        if !thorough && id.starts_with("two_") {
+            continue;
+        }
         let sp2 = sp.clone();
         let desc = format!("interval-size bound B in 1..={max_days} days (symbolic seconds), next_change at 2024-06-12 + t_s of: {}", describe(&sp));
         out.push(Template::new(format!("{id}@B"), desc, move || bounded(&sp2, 0, 1, max_days)));
